@@ -364,7 +364,7 @@ Proof.
 Qed.
 
 Lemma mutate_core : forall ms s cs r1 muts r',
-  wf_space ms -> member ms s -> (forall c, In c (choices_list ms) -> cend c <= zlen s) ->
+  wf_choices ms -> member ms s -> (forall c, In c (choices_list ms) -> cend c <= zlen s) ->
   NoDup cs -> (forall c, In c cs -> In c (multichoices ms)) ->
   variants_for cs s r1 = Some (muts, r') ->
   zlen (apply_mutations s muts) = zlen s /\
@@ -376,7 +376,7 @@ Lemma mutate_core : forall ms s cs r1 muts r',
      nth_error (apply_mutations s muts) (Z.to_nat i) = nth_error s (Z.to_nat i)).
 Proof.
   intros ms s cs r1 muts r' Hwf Hmem Hend Hnd Hsub Hvf.
-  destruct Hwf as [Hwc [Hsorted _]].
+  destruct Hwf as [Hwc Hsorted].
   rewrite Forall_forall in Hwc.
   destruct (variants_for_spec _ _ _ _ _ Hvf) as [Hmap Hprops].
   rewrite Forall_forall in Hprops.
@@ -425,7 +425,7 @@ Proof.
 Qed.
 
 Lemma mutate_idx : forall ms s idx cs r1 muts r',
-  wf_space ms -> member ms s -> (forall c, In c (choices_list ms) -> cend c <= zlen s) ->
+  wf_choices ms -> member ms s -> (forall c, In c (choices_list ms) -> cend c <= zlen s) ->
   NoDup idx -> nth_all (multichoices ms) idx = Some cs ->
   variants_for cs s r1 = Some (muts, r') ->
   zlen (apply_mutations s muts) = zlen s /\
@@ -439,7 +439,7 @@ Lemma mutate_idx : forall ms s idx cs r1 muts r',
 Proof.
   intros ms s idx cs r1 muts r' Hwf Hmem Hend Hnd Hna Hvf.
   assert (Hndmc : NoDup (multichoices ms)).
-  { unfold multichoices. apply NoDup_filter. destruct Hwf as [Hwc [Hs _]].
+  { unfold multichoices. apply NoDup_filter. destruct Hwf as [Hwc Hs].
     apply sorted_nodup; assumption. }
   pose proof (nth_all_nodup _ _ _ Hndmc Hnd Hna) as Hndcs.
   destruct (nth_all_spec _ _ _ Hna) as [Hlen Hin].
@@ -454,7 +454,7 @@ Qed.
 
 (* for every oracle stream whose answers are legitimate *)
 Theorem apply_random_mutations_spec : forall ms n s stream s' r',
-  wf_space ms -> member ms s -> (forall c, In c (choices_list ms) -> cend c <= zlen s) ->
+  wf_choices ms -> member ms s -> (forall c, In c (choices_list ms) -> cend c <= zlen s) ->
   0 <= n ->
   apply_random_mutations ms n s (mkR stream []) = Some (s', r') ->
   valid_run stream r' ->
